@@ -13,7 +13,7 @@ length 3, plus the default initialisation done by load()), array-map
 variables (mmap path; declaration sets as in C08), per-CPU `read()` with
 n_possible in {1, 2, ncpu, ncpu+3} (the last with only ncpu CPUs online),
 and Dict operations (__setitem__ __getitem__ pop __delitem__ __iter__
-values(); breadth-first over sequences up to length 3, all reachable map
+values() items() popitem() clear() get() setdefault() `in`; breadth-first over sequences up to length 3, all reachable map
 contents) on the Dict declarations of C09.
 """
 import itertools
@@ -28,7 +28,9 @@ PROP = "C10"
 LEVEL = "model_checking"
 RULE = ("cases = (declaration, operation sequence): hash-map variables of "
         "formats B H I Q b h i q x (1-2 variables, all get/set sequences of "
-        "length <= 3), array and per-CPU declaration sets of <= 2 variables "
+        "length <= 3), hash maps with 255 / 256 / 257 (thorough: also 254, "
+        "300, 513) variables (get / set of the first, 255th, 256th, 257th, "
+        "last; single operations and all set-then-get pairs), array and per-CPU declaration sets of <= 2 variables "
         "from C08's alphabet (per-CPU x 4 possible/online CPU settings), "
         "Dict declarations of C09 with all Python operation sequences of "
         "length <= 3 explored breadth-first over map contents; a case is "
@@ -260,8 +262,71 @@ def run_dict(cfg, res):
         res.outcomes.add(("dict-rejected", log[0][1]))
 
 
+# ------------------------------------------------- many hash-map variables
+def run_manyvars(item, res):
+    """a HashMap with n variables (around the 256 boundary of the one-byte
+    key); get / set of the first, the 255th, the 256th and the last one"""
+    n, fmt = item
+    picks = sorted({0, 1, 254, 255, 256, n - 1} & set(range(n)))
+    ops = [(a, j) for j in picks for a in ("get", "set")]
+    seqs = [(o,) for o in ops] + [(("set", j), ("get", k))
+                                  for j in picks for k in picks]
+    for seq in seqs:
+        res.count("evaluations")
+        sk = simkernel.SimKernel()
+        mon = Monitor(sk, res)
+        cj = dict(kind="manyvars", n=n, fmt=fmt, seq=[list(o) for o in seq])
+        try:
+            with sk.installed():
+                M = HashMap()
+                attrs = {"hmap": M}
+                for j in range(n):
+                    attrs[f"v{j}"] = M.globalVar(fmt, default=j % 3)
+                b = c09.dsl.Builder(attrs, n_in=1, n_out=1, pv_area=c09.HDR)
+                b.finish(2)
+                e = b.e
+                try:
+                    e.load()
+                    loaded = True
+                except Exception as ex:
+                    if isinstance(ex, (simkernel.SimTrap, core.Internal)):
+                        raise
+                    loaded = False
+                    res.outcomes.add(("many-load", n, type(ex).__name__))
+                ok = mon.judge(dict(cj, opkind="load"), mon.new(),
+                               note=f"default initialisation of {n} hash-map "
+                               "variables in load()")
+                res.outcomes.add(("many-load", n >= 256, loaded, ok))
+                if not loaded:
+                    res.count("rejected_by_library")
+                    return
+                for i, op in enumerate(seq):
+                    try:
+                        if op[0] == "get":
+                            getattr(e, f"v{op[1]}")
+                        else:
+                            setattr(e, f"v{op[1]}", 1)
+                        out = "ok"
+                    except Exception as ex:
+                        if isinstance(ex, (simkernel.SimTrap, core.Internal)):
+                            raise
+                        out = type(ex).__name__
+                    ok = mon.judge(
+                        dict(cj, opkind=op[0], step=i, fmt=fmt), mon.new(),
+                        note=f"{op[0]} of variable {op[1]} of {n} in one "
+                        "hash map")
+                    res.outcomes.add(("many", op[0], out, ok))
+                res.count("map_syscalls", sum(
+                    1 for c, _ in sk.calls if c in (1, 2, 3, 4, 21)))
+                res.nontrivial.add(core.digest(cj))
+        finally:
+            sk.close_all()
+
+
 def work(item, res):
     kind, payload = item
+    if kind == "many":
+        return run_manyvars(payload, res)
     if kind == "hv":
         run_hashvars(payload, res)
     elif kind == "arr":
@@ -288,7 +353,11 @@ def run(ctx):
             items.append(("arr", (k, p, ctx.seed, pcs)))
     for cfg in c09.dict_configs(ctx):
         items.append(("dict", cfg))
-    items.sort(key=lambda it: {"arr": 0, "dict": 1, "hv": 2}[it[0]])
+    for n in (255, 256, 257) if ctx.quick else (254, 255, 256, 257, 300, 513):
+        for fmt in ("Q",) if ctx.quick else ("Q", "b"):
+            items.append(("many", (n, fmt)))
+    items.sort(key=lambda it: {"arr": 0, "dict": 1, "hv": 2, "many": 1}[
+        it[0]])
     res = core.pmap(ctx, work, items, chunk=2)
     res.cov.pop("_sigs", None)
     res.cov["states"] = len(res.nontrivial)
@@ -321,6 +390,10 @@ def replay(ctx, rep):
         run_hashvars((fmts, defaults), res)
         want = c["seq"]
         out = [v for v in res.violations if v["case"]["seq"] == want
+               and v["case"].get("step") == c.get("step")]
+    elif c["kind"] == "manyvars":
+        run_manyvars((c["n"], c["fmt"]), res)
+        out = [v for v in res.violations if v["case"]["seq"] == c["seq"]
                and v["case"].get("step") == c.get("step")]
     elif c["kind"] in ("array", "percpu"):
         layout = tuple(tuple(p) for p in c["layout"])
